@@ -686,7 +686,13 @@ func (dr *dirRepo) gc() error {
 			} {
 				err := os.Remove(dir)
 				if err != nil && !errors.Is(err, fs.ErrNotExist) {
+					if dir == filepath.Join(dr.path) {
+						// the layout is gone, the directory itself may remain (e.g. nested repositories)
+						break
+					}
+					// stop before removing the layout files of a repo that still has content
 					errs = append(errs, err)
+					break
 				}
 			}
 			return errors.Join(errs...)
